@@ -73,6 +73,9 @@ func (c Cfg) Key(n uint64) interface{} {
 		return n
 	case "i64":
 		return int64(n) - i64bias
+	case "i64w":
+		// int64 anywhere in its range: the code with the sign bit flipped (order-preserving)
+		return int64(n ^ (1 << 63))
 	case "str":
 		return strKey(n)
 	case "strx":
@@ -139,6 +142,9 @@ func (c Cfg) KeyNat(k interface{}) uint64 {
 	case uint64:
 		return v
 	case int64:
+		if c.KK == "i64w" {
+			return uint64(v) ^ (1 << 63)
+		}
 		return uint64(v + i64bias)
 	case string:
 		var n uint64
@@ -171,7 +177,7 @@ func (c Cfg) KeysLike() interface{} {
 		return VK(0)
 	case "u64":
 		return uint64(0)
-	case "i64":
+	case "i64", "i64w":
 		return int64(0)
 	case "str", "strx":
 		return ""
